@@ -828,6 +828,67 @@ def desugar_iter(body, qualname):
             applied.append({'rule': 'D3 copied+collect -> push loop', 'binding': name})
         body = body[:m.start()] + rep + body[semi + 1:]
         pos = m.start() + len(rep)
+    # ---- D6 : F(E.filter(|P| B1).map(|Q| B2), REST)  =>  { let mut verif_items = Vec::new(); for verif_x in E { let P = &verif_x;
+    #           if B1 { let Q = verif_x; verif_items.push(B2); } } F(verif_items.into_iter(), REST) }
+    # Eager evaluation of a lazy adapter chain handed to a callee. Equivalent because both closures capture only shared borrows
+    # (rustc's borrow checker: the callee holds the iterator, so nothing the closures read can change while it runs) and every panic
+    # site inside the closures is an obligation of the loop as well.
+    while True:
+        i = body.find('.filter(')
+        if i < 0:
+            break
+        o = i + len('.filter(') - 1
+        c = match_close(body, o, '(', ')')
+        rest = body[c + 1:]
+        mm = re.match(r'\s*\.map\(', rest)
+        if not mm:
+            raise ExtractError("desugar D6: .filter(..) not followed by .map(..) in %s" % qualname)
+        o2 = c + 1 + mm.end() - 1
+        c2 = match_close(body, o2, '(', ')')
+        p1, b1 = _parse_closure(body[o + 1:c], qualname)
+        p2, b2 = _parse_closure(body[o2 + 1:c2], qualname)
+        if len(p1) != 1 or len(p2) != 1 or CONTROL.search(b1) or CONTROL.search(b2):
+            raise ExtractError("desugar D6 does not apply in %s" % qualname)
+        # receiver E: scan back over identifiers, dots and balanced call parentheses to the opening '(' of the callee's argument list
+        j = i
+        while j > 0:
+            ch = body[j - 1]
+            if ch.isalnum() or ch in '_.':
+                j -= 1
+            elif ch == ')':
+                d = 0
+                k = j - 1
+                while k >= 0:
+                    if body[k] == ')':
+                        d += 1
+                    elif body[k] == '(':
+                        d -= 1
+                        if d == 0:
+                            break
+                    k -= 1
+                j = k
+            else:
+                break
+        recv = body[j:i]
+        if j == 0 or body[j - 1] != '(':
+            raise ExtractError("desugar D6: adapter chain is not the first argument of a call in %s" % qualname)
+        # callee name before '('
+        k = j - 1
+        st = k
+        while st > 0 and (body[st - 1].isalnum() or body[st - 1] in '_:.'):
+            st -= 1
+        callee = body[st:k]
+        ce = match_close(body, k, '(', ')')
+        restargs = body[c2 + 1:ce]
+        def _strip_block(b):
+            b = b.strip()
+            if b.startswith('{') and b.endswith('}'):
+                return b[1:-1].strip()
+            return b
+        rep = ('{\n        let mut verif_items = Vec::new();\n        for verif_x in %s {\n            let %s = &verif_x;\n            if %s {\n                let %s = verif_x;\n                verif_items.push(%s);\n            }\n        }\n        %s(verif_items.into_iter()%s)\n        }'
+               % (recv, p1[0], _strip_block(b1), p2[0], _strip_block(b2), callee, restargs))
+        body = body[:st] + rep + body[ce + 1:]
+        applied.append({'rule': 'D6 filter+map argument -> eager Vec + into_iter', 'callee': callee})
     # ---- D1 : E.for_each(|PAT| BLOCK);
     while True:
         i = body.find('.for_each(')
